@@ -521,18 +521,18 @@ func (w *World) Apply(st Stim) bool {
 		return w.D.ReleasePoint(st.T)
 	case "relm":
 		id := w.D.Thread(st.T).GoID()
-		if id == 0 || !(w.EGate.ReleaseWho(id) || w.Enc.M.ReleaseWho(id)) {
+		if id == 0 || !(w.EGate.Parked(id) || w.Enc.M.Parked(id)) {
 			return false
 		}
-		w.mark()
-		return true
+		w.mark() // before the release: what the released goroutine writes belongs to this step
+		return w.EGate.ReleaseWho(id) || w.Enc.M.ReleaseWho(id)
 	case "relu":
 		id := w.D.Thread(st.T).GoID()
-		if id == 0 || !w.Enc.U.ReleaseWho(id) {
+		if id == 0 || !w.Enc.U.Parked(id) {
 			return false
 		}
 		w.mark()
-		return true
+		return w.Enc.U.ReleaseWho(id)
 	}
 	return false
 }
